@@ -36,7 +36,7 @@ MANIFEST = {
     "technique": "def-use normalisation rule + who-may-write scan + CFG "
                  "reachability (raise after state change) with "
                  "interprocedural may-raise summaries + algorithm-shape "
-                 "rules",
+                 "rules + refusal-weakening check against the reviewed guard snapshot",
 }
 
 ST_MOD = "src/psyclone/psyir/symbols/symbol_table.py"
